@@ -1,0 +1,82 @@
+//go:build verif
+
+package rapid
+
+// Verification hooks (build tag "verif"). With the tag off every hook site is
+// `if false { ... }` and compiles away; see verif_off.go.
+
+import "sync/atomic"
+
+const verifOn = true
+
+type verifSinkFn func(ev string, kv []any)
+type verifGateFn func(point string)
+
+var (
+	verifSink atomic.Pointer[verifSinkFn]
+	verifGate atomic.Pointer[verifGateFn]
+)
+
+// VerifSetSink installs (or, with nil, removes) the receiver of hook events.
+func VerifSetSink(f func(ev string, kv []any)) {
+	if f == nil {
+		verifSink.Store(nil)
+		return
+	}
+	fn := verifSinkFn(f)
+	verifSink.Store(&fn)
+}
+
+// VerifSetGate installs (or, with nil, removes) a function that is called at
+// named scheduling points and may block; used to replay interleavings.
+func VerifSetGate(f func(point string)) {
+	if f == nil {
+		verifGate.Store(nil)
+		return
+	}
+	fn := verifGateFn(f)
+	verifGate.Store(&fn)
+}
+
+func verifEmit(ev string, kv ...any) {
+	if f := verifSink.Load(); f != nil {
+		(*f)(ev, kv)
+	}
+}
+
+func verifAt(point string) {
+	if f := verifGate.Load(); f != nil {
+		(*f)(point)
+	}
+}
+
+func verifErr(err *testError) []any {
+	switch {
+	case err == nil:
+		return []any{"none", "", ""}
+	case err.isInvalidData():
+		return []any{"invalid", err.Error(), err.traceback}
+	case err.isStopTest():
+		return []any{"stop", err.Error(), err.traceback}
+	default:
+		return []any{"panic", err.Error(), err.traceback}
+	}
+}
+
+func verifWords(buf []uint64) []uint64 {
+	return buf // the sink serialises synchronously
+}
+
+type VerifGroup struct {
+	Begin, End          int
+	Label               string
+	Standalone, Discard bool
+}
+
+func verifGroups(gs []groupInfo) []VerifGroup {
+	out := make([]VerifGroup, len(gs))
+	for i, g := range gs {
+		out[i] = VerifGroup{g.begin, g.end, g.label, g.standalone, g.discard}
+	}
+	return out
+}
